@@ -10,6 +10,8 @@ from props import resultslib as rl
 from props import c03
 
 PID = "C14"
+# features of a call graph that make a second generation over the mutated IR differ
+ORDER_FEATURES = ["compound-argument", "same-call-on-two-paths", "cycle"]
 
 from rattr.models.util import serialise_irs
 from rattr.results import generate_results_from_ir
@@ -97,7 +99,7 @@ def run(tier, seed, build):
         r2 = {k: {a: sorted(b) for a, b in v.items()} for k, v in dict(o2[1]).items()}
         if r1 != r2:
             feats = rl.other_roots_features(snap, c03.sigs_from_source(src))
-            f = next((x for x in rl.FEATURE_PRIORITY + ["cycle"] if x in feats), "clean-fragment")
+            f = next((x for x in ORDER_FEATURES if x in feats), "clean-fragment")
             if not pinned:
                 f = "not-the-pinned-behaviour:" + f
             res.count("second-generation-differs:" + f)
